@@ -258,10 +258,8 @@ static int configRemove(MPT_INTERFACE(config) *cfg, const MPT_STRUCT(path) *path
 	}
 	if (b == nodeGlobal) {
 		nodeGlobal = b->next;
-		b->next = 0;
-	} else {
-		mpt_node_unlink(b);
 	}
+	mpt_node_unlink(b);
 	mpt_node_destroy(b);
 	return 1;
 }
